@@ -180,6 +180,8 @@ impl MT202 {
             None
         };
 
+        crate::parser::utils::verify_parser_complete(&parser)?;
+
         Ok(MT202 {
             field_20,
             field_21,
